@@ -131,6 +131,14 @@ impl Client {
 
         if let RecordKind::Chunk = header.kind {
             let chunk: Chunk = try_deserialize_record(&record)?;
+            // the chunk's address is recomputed from its bytes: it must be the one we asked for,
+            // otherwise a holder could substitute other content under the requested key
+            if *chunk.address().xorname() != addr {
+                error!("Fetched chunk does not hash to the requested address {addr:?}");
+                return Err(GetError::Protocol(ant_protocol::Error::ChunkDoesNotExist(
+                    NetworkAddress::from_chunk_address(ChunkAddress::new(addr)),
+                )));
+            }
             Ok(chunk)
         } else {
             error!(
